@@ -13,6 +13,9 @@ static long long hx_stat_val[HX_MAXSTAT];
 static int hx_nstat;
 static int hx_fail_count;
 static int hx_samples;
+/* optional input: when it is empty it is given alternately as NULL and as a valid pointer with length 0 */
+static unsigned hx_opt_toggle;
+#define HX_OPT(p, n) ((n) ? (p) : ((hx_opt_toggle++ & 1) ? (p) : 0))
 static uint64_t hx_seed = 1;
 static int hx_exact;              /* HX_EXACT=1: exact-size malloc blocks (tail flush against the ASan red zone), no canaries */
 static unsigned hx_default_off;   /* HX_OFF=0..7: start offset of every hx_buf buffer (alignment sweep of C12) */
